@@ -1,5 +1,1319 @@
-//! onnxref engine (see main.rs). Entry point: `vh-ops onnxref [options]`; sub-modes via further arguments.
+//! onnxref engine (C15): single-operator ONNX models with seeded random shapes, attributes and
+//! integer-valued data are run through `rten::Model::run`; the case (operator, attributes, complete
+//! inputs) and what rten did (outputs / error / panic) are written as NDJSON. The expected outputs
+//! are NOT computed here: `specs/ops/Trace_Onnx.tla` evaluates `OnnxOps.OnnxEval` on the logged
+//! inputs and compares.
+//!
+//! `vh-ops onnxref --out trace.ndjson [--ops A,B,..] [--per N] [--first-id N] [--only-case '<case json>'] [--list]`
+//!
+//! Trace records (fixed field sets):
+//!  {"ev":"case","id","op","tag","attrs":{name:[]|[v]},"ins":[{"p","shape","dtype","ot","data","init"}],"nout","vshape"}
+//!  {"ev":"ret","id","outcome":"ok|err|loaderr|panic","msg","outs":[{"shape","dtype","data","nonint"}]}
+//! f32 data is logged as its exact integer value (inputs are integer-valued by construction; a
+//! non-integer / non-finite / huge f32 output element is logged as 0 and counted in `nonint`).
+
+use rten::{Model, Value};
+use rten_tensor::Tensor;
+use rten_tensor::prelude::*;
+use vcommon::onnx::{self, Attr, Graph, Node, TensorData, ValueInfo};
+use vcommon::{Rng, Trace, Value as J, arg, arg_usize, guarded, json, quiet_panics, seed_from_env};
+
+#[derive(Clone, Copy, PartialEq, Debug)]
+pub enum Dt {
+    F32,
+    I32,
+    I8,
+    U8,
+}
+
+impl Dt {
+    fn name(self) -> &'static str {
+        match self {
+            Dt::F32 => "f32",
+            Dt::I32 => "i32",
+            Dt::I8 => "i8",
+            Dt::U8 => "u8",
+        }
+    }
+    fn from_name(s: &str) -> Dt {
+        match s {
+            "f32" => Dt::F32,
+            "i32" => Dt::I32,
+            "i8" => Dt::I8,
+            "u8" => Dt::U8,
+            _ => panic!("bad dtype {s}"),
+        }
+    }
+    /// Default ONNX element type.
+    fn onnx(self) -> i32 {
+        match self {
+            Dt::F32 => onnx::FLOAT,
+            Dt::I32 => onnx::INT32,
+            Dt::I8 => onnx::INT8,
+            Dt::U8 => onnx::UINT8,
+        }
+    }
+    fn lo(self) -> i64 {
+        match self {
+            Dt::U8 => 0,
+            Dt::I8 => -128,
+            _ => -(1 << 30),
+        }
+    }
+    fn hi(self) -> i64 {
+        match self {
+            Dt::U8 => 255,
+            Dt::I8 => 127,
+            _ => 1 << 30,
+        }
+    }
+}
+
+/// Integer-valued tensor. `ot` = ONNX element type declared in the model (INT64/BOOL/DOUBLE are
+/// i32/i32/f32 at run time).
+#[derive(Clone, Debug)]
+pub struct T {
+    pub shape: Vec<usize>,
+    pub dt: Dt,
+    pub ot: i32,
+    pub data: Vec<i64>,
+}
+
+impl T {
+    fn new(shape: Vec<usize>, dt: Dt, data: Vec<i64>) -> T {
+        assert_eq!(shape.iter().product::<usize>(), data.len());
+        T {
+            shape,
+            dt,
+            ot: dt.onnx(),
+            data,
+        }
+    }
+    fn ot(mut self, ot: i32) -> T {
+        self.ot = ot;
+        self
+    }
+    fn i64s(v: Vec<i64>) -> T {
+        T::new(vec![v.len()], Dt::I32, v).ot(onnx::INT64)
+    }
+    fn scalar(dt: Dt, v: i64) -> T {
+        T::new(vec![], dt, vec![v])
+    }
+    fn json(&self, init: bool) -> J {
+        json!({"p": true, "shape": self.shape, "dtype": self.dt.name(), "ot": self.ot, "data": self.data, "init": init})
+    }
+    fn from_json(j: &J) -> Option<T> {
+        if !j["p"].as_bool().unwrap_or(false) {
+            return None;
+        }
+        Some(T {
+            shape: j["shape"].as_array().unwrap().iter().map(|x| x.as_u64().unwrap() as usize).collect(),
+            dt: Dt::from_name(j["dtype"].as_str().unwrap()),
+            ot: j["ot"].as_i64().unwrap() as i32,
+            data: j["data"].as_array().unwrap().iter().map(|x| x.as_i64().unwrap()).collect(),
+        })
+    }
+    fn to_value(&self) -> Value {
+        let sh = self.shape.as_slice();
+        match self.dt {
+            Dt::F32 => Tensor::from_data(sh, self.data.iter().map(|v| *v as f32).collect::<Vec<_>>()).into(),
+            Dt::I32 => Tensor::from_data(sh, self.data.iter().map(|v| *v as i32).collect::<Vec<_>>()).into(),
+            Dt::I8 => Tensor::from_data(sh, self.data.iter().map(|v| *v as i8).collect::<Vec<_>>()).into(),
+            Dt::U8 => Tensor::from_data(sh, self.data.iter().map(|v| *v as u8).collect::<Vec<_>>()).into(),
+        }
+    }
+    /// As an ONNX TensorProto (initializer / tensor attribute) of element type `ot`.
+    fn to_onnx(&self, name: &str) -> onnx::Tensor {
+        let d = &self.data;
+        let data = match self.ot {
+            onnx::FLOAT => TensorData::F32(d.iter().map(|v| *v as f32).collect()),
+            onnx::INT32 => TensorData::I32(d.iter().map(|v| *v as i32).collect()),
+            onnx::INT64 => TensorData::I64(d.clone()),
+            onnx::UINT8 => TensorData::U8(d.iter().map(|v| *v as u8).collect()),
+            onnx::INT8 => TensorData::I8(d.iter().map(|v| *v as i8).collect()),
+            onnx::BOOL => TensorData::Bool(d.iter().map(|v| *v != 0).collect()),
+            onnx::DOUBLE => {
+                let mut raw = Vec::new();
+                for v in d {
+                    raw.extend_from_slice(&(*v as f64).to_le_bytes());
+                }
+                TensorData::Raw(onnx::DOUBLE, raw)
+            }
+            other => panic!("unsupported onnx type {other}"),
+        };
+        onnx::Tensor {
+            name: name.to_string(),
+            dims: self.shape.iter().map(|d| *d as i64).collect(),
+            data,
+        }
+    }
+}
+
+#[derive(Clone, Debug)]
+pub enum AV {
+    Int(i64),
+    Ints(Vec<i64>),
+    Str(String),
+    /// float attribute with an integer value
+    Flt(i64),
+    Tens(T),
+}
+
+#[derive(Clone, Debug)]
+pub struct Case {
+    pub op: String,
+    /// coarse attribute / input class: part of the signature of a failing case
+    pub tag: String,
+    /// fine attribute combination (dtype, attribute settings): counted in the evidence file
+    pub combo: String,
+    /// None = attribute not set (logged as [], the spec applies the ONNX default)
+    pub attrs: Vec<(String, Option<AV>)>,
+    pub ins: Vec<Option<T>>,
+    /// inputs supplied as initializers instead of graph inputs
+    pub init: Vec<bool>,
+    pub nout: usize,
+    /// declare fixed input shapes in the graph's ValueInfo
+    pub vshape: bool,
+}
+
+impl Case {
+    fn new(op: &str) -> Case {
+        Case {
+            op: op.to_string(),
+            tag: String::new(),
+            combo: String::new(),
+            attrs: vec![],
+            ins: vec![],
+            init: vec![],
+            nout: 1,
+            vshape: false,
+        }
+    }
+    fn input(mut self, t: T) -> Case {
+        self.ins.push(Some(t));
+        self.init.push(false);
+        self
+    }
+    fn opt_input(mut self, t: Option<T>) -> Case {
+        self.ins.push(t);
+        self.init.push(false);
+        self
+    }
+    fn attr(mut self, name: &str, v: Option<AV>) -> Case {
+        self.attrs.push((name.to_string(), v));
+        self
+    }
+    fn int(self, name: &str, v: Option<i64>) -> Case {
+        self.attr(name, v.map(AV::Int))
+    }
+    fn tag(mut self, t: String) -> Case {
+        self.tag = t;
+        self
+    }
+    fn combo(mut self, t: String) -> Case {
+        self.combo = t;
+        self
+    }
+    fn nout(mut self, n: usize) -> Case {
+        self.nout = n;
+        self
+    }
+
+    fn json(&self, id: usize) -> J {
+        let mut attrs = serde_json::Map::new();
+        for (n, v) in &self.attrs {
+            let jv = match v {
+                None => json!([]),
+                Some(AV::Int(i)) => json!([i]),
+                Some(AV::Flt(i)) => json!([i]),
+                Some(AV::Ints(v)) => json!([v]),
+                Some(AV::Str(s)) => json!([s]),
+                Some(AV::Tens(t)) => json!([t.json(true)]),
+            };
+            attrs.insert(n.clone(), jv);
+        }
+        // attribute kinds, needed to rebuild the model on --only-case
+        let kinds: Vec<J> = self
+            .attrs
+            .iter()
+            .map(|(n, v)| {
+                json!([n, match v {
+                    None => "none",
+                    Some(AV::Int(_)) => "int",
+                    Some(AV::Flt(_)) => "flt",
+                    Some(AV::Ints(_)) => "ints",
+                    Some(AV::Str(_)) => "str",
+                    Some(AV::Tens(_)) => "tens",
+                }])
+            })
+            .collect();
+        let ins: Vec<J> = self
+            .ins
+            .iter()
+            .zip(&self.init)
+            .map(|(t, init)| match t {
+                Some(t) => t.json(*init),
+                None => json!({"p": false, "shape": [], "dtype": "", "ot": 0, "data": [], "init": false}),
+            })
+            .collect();
+        json!({"ev": "case", "id": id, "op": self.op, "tag": self.tag, "combo": self.combo, "attrs": J::Object(attrs), "akinds": kinds,
+               "ins": ins, "nout": self.nout, "vshape": self.vshape})
+    }
+
+    fn from_json(j: &J) -> Case {
+        let mut c = Case::new(j["op"].as_str().unwrap());
+        c.tag = j["tag"].as_str().unwrap_or("").to_string();
+        c.combo = j["combo"].as_str().unwrap_or("").to_string();
+        c.nout = j["nout"].as_u64().unwrap() as usize;
+        c.vshape = j["vshape"].as_bool().unwrap_or(false);
+        for k in j["akinds"].as_array().unwrap() {
+            let name = k[0].as_str().unwrap();
+            let v = &j["attrs"][name];
+            let av = match k[1].as_str().unwrap() {
+                "none" => None,
+                "int" => Some(AV::Int(v[0].as_i64().unwrap())),
+                "flt" => Some(AV::Flt(v[0].as_i64().unwrap())),
+                "ints" => Some(AV::Ints(v[0].as_array().unwrap().iter().map(|x| x.as_i64().unwrap()).collect())),
+                "str" => Some(AV::Str(v[0].as_str().unwrap().to_string())),
+                "tens" => Some(AV::Tens(T::from_json(&v[0]).unwrap())),
+                other => panic!("bad attr kind {other}"),
+            };
+            c.attrs.push((name.to_string(), av));
+        }
+        for i in j["ins"].as_array().unwrap() {
+            c.ins.push(T::from_json(i));
+            c.init.push(i["init"].as_bool().unwrap_or(false));
+        }
+        c
+    }
+
+    fn model(&self) -> Vec<u8> {
+        let in_names: Vec<String> = self
+            .ins
+            .iter()
+            .enumerate()
+            .map(|(k, t)| if t.is_some() { format!("i{k}") } else { String::new() })
+            .collect();
+        // trailing omitted inputs are dropped from the node's input list
+        let mut n_in = in_names.len();
+        while n_in > 0 && in_names[n_in - 1].is_empty() {
+            n_in -= 1;
+        }
+        let out_names: Vec<String> = (0..self.nout).map(|k| format!("o{k}")).collect();
+        let mut node = Node::new(
+            &self.op,
+            &in_names[..n_in].iter().map(|s| s.as_str()).collect::<Vec<_>>(),
+            &out_names.iter().map(|s| s.as_str()).collect::<Vec<_>>(),
+        );
+        for (name, v) in &self.attrs {
+            let a = match v {
+                None => continue,
+                Some(AV::Int(i)) => Attr::Int(*i),
+                Some(AV::Flt(i)) => Attr::Float(*i as f32),
+                Some(AV::Ints(v)) => Attr::Ints(v.clone()),
+                Some(AV::Str(s)) => Attr::Str(s.clone()),
+                Some(AV::Tens(t)) => Attr::Tensor(t.to_onnx("")),
+            };
+            node = node.attr(name, a);
+        }
+        let mut g = Graph::default();
+        g.nodes.push(node);
+        for (k, t) in self.ins.iter().enumerate() {
+            let Some(t) = t else { continue };
+            if self.init[k] {
+                g.initializers.push(t.to_onnx(&in_names[k]));
+            } else if self.vshape {
+                let dims: Vec<i64> = t.shape.iter().map(|d| *d as i64).collect();
+                g.inputs.push(ValueInfo::fixed(&in_names[k], t.ot, &dims));
+            } else {
+                g.inputs.push(ValueInfo::new(&in_names[k], t.ot, None));
+            }
+        }
+        for o in &out_names {
+            g.outputs.push(ValueInfo::new(o, 0, None));
+        }
+        g.to_model()
+    }
+}
+
+fn trunc(s: &str) -> String {
+    s.chars().filter(|c| c.is_ascii() && !c.is_ascii_control()).take(160).collect()
+}
+
+fn out_json(v: &Value) -> J {
+    fn ints<I: Iterator<Item = i64>>(shape: &[usize], dt: &str, it: I) -> J {
+        json!({"shape": shape, "dtype": dt, "data": it.collect::<Vec<i64>>(), "nonint": 0})
+    }
+    match v {
+        Value::FloatTensor(t) => {
+            let mut nonint = 0;
+            let data: Vec<i64> = t
+                .iter()
+                .map(|x| {
+                    if x.is_finite() && x.fract() == 0.0 && x.abs() < (1u64 << 30) as f32 {
+                        *x as i64
+                    } else {
+                        nonint += 1;
+                        0
+                    }
+                })
+                .collect();
+            json!({"shape": t.shape(), "dtype": "f32", "data": data, "nonint": nonint})
+        }
+        Value::Int32Tensor(t) => ints(t.shape(), "i32", t.iter().map(|x| *x as i64)),
+        Value::Int8Tensor(t) => ints(t.shape(), "i8", t.iter().map(|x| *x as i64)),
+        Value::UInt8Tensor(t) => ints(t.shape(), "u8", t.iter().map(|x| *x as i64)),
+        Value::Sequence(s) => json!({"shape": [s.len()], "dtype": "seq", "data": [], "nonint": 0}),
+        _ => json!({"shape": [], "dtype": "unknown", "data": [], "nonint": 0}),
+    }
+}
+
+/// Run one case on the real code. Returns the `ret` record (without id).
+fn run_case(c: &Case) -> J {
+    let bytes = c.model();
+    let fail = |kind: &str, msg: &str| json!({"ev": "ret", "outcome": kind, "msg": trunc(msg), "outs": []});
+    // load and run are guarded separately so that a panic can be attributed
+    let model = match guarded(|| Model::load(bytes)) {
+        Ok(Ok(m)) => m,
+        Ok(Err(e)) => return fail("loaderr", &e.to_string()),
+        Err(msg) => return fail("panic", &format!("in Model::load: {msg}")),
+    };
+    let r = guarded(|| -> Result<Vec<Value>, String> {
+        let mut inputs = Vec::new();
+        for (k, t) in c.ins.iter().enumerate() {
+            let Some(t) = t else { continue };
+            if c.init[k] {
+                continue;
+            }
+            let id = model.node_id(&format!("i{k}")).map_err(|e| e.to_string())?;
+            inputs.push((id, t.to_value().into()));
+        }
+        let mut outs = Vec::new();
+        for k in 0..c.nout {
+            outs.push(model.node_id(&format!("o{k}")).map_err(|e| e.to_string())?);
+        }
+        model.run(inputs, &outs, None).map_err(|e| e.to_string())
+    });
+    match r {
+        Ok(Ok(vals)) => {
+            json!({"ev": "ret", "outcome": "ok", "msg": "", "outs": vals.iter().map(out_json).collect::<Vec<_>>()})
+        }
+        Ok(Err(msg)) => fail("err", &msg),
+        Err(msg) => fail("panic", &format!("in Model::run: {msg}")),
+    }
+}
+
+// ------------------------------------------------------------------ generators
+
+fn dims(r: &mut Rng, min_rank: usize, max_rank: usize, max_dim: usize, zero: bool) -> Vec<usize> {
+    let rank = r.range(min_rank as i64, max_rank as i64) as usize;
+    (0..rank)
+        .map(|_| if zero && r.chance(1, 14) { 0 } else { r.range(1, max_dim as i64) as usize })
+        .collect()
+}
+
+fn numel(s: &[usize]) -> usize {
+    s.iter().product()
+}
+
+fn vals(r: &mut Rng, n: usize, lo: i64, hi: i64) -> Vec<i64> {
+    (0..n).map(|_| r.range(lo, hi)).collect()
+}
+
+fn tensor(r: &mut Rng, shape: &[usize], dt: Dt, lo: i64, hi: i64) -> T {
+    let lo = lo.max(dt.lo());
+    let hi = hi.min(dt.hi()).max(lo);
+    T::new(shape.to_vec(), dt, vals(r, numel(shape), lo, hi))
+}
+
+fn bools(r: &mut Rng, shape: &[usize]) -> T {
+    tensor(r, shape, Dt::I32, 0, 1).ot(onnx::BOOL)
+}
+
+/// A shape broadcastable to (a prefix-trimmed version of) `out`.
+fn operand_shape(r: &mut Rng, out: &[usize]) -> Vec<usize> {
+    let drop = if r.chance(1, 3) { r.below(out.len() + 1) } else { 0 };
+    out[drop..].iter().map(|d| if r.chance(1, 4) { 1 } else { *d }).collect()
+}
+
+fn num_dt(r: &mut Rng) -> Dt {
+    *r.pick(&[Dt::F32, Dt::F32, Dt::F32, Dt::I32, Dt::I32, Dt::I32, Dt::I8, Dt::U8])
+}
+
+fn any_dt(r: &mut Rng) -> Dt {
+    *r.pick(&[Dt::F32, Dt::F32, Dt::I32, Dt::I32, Dt::I8, Dt::U8])
+}
+
+fn opt_range(r: &mut Rng, lo: i64, hi: i64) -> Option<i64> {
+    if r.chance(1, 4) { None } else { Some(r.range(lo, hi)) }
+}
+
+/// Axis in 0..rank, written negatively half of the time.
+fn axis_in(r: &mut Rng, rank: usize) -> i64 {
+    let a = r.below(rank.max(1)) as i64;
+    if r.chance(1, 2) { a - rank as i64 } else { a }
+}
+
+fn maybe_neg(r: &mut Rng, a: i64, n: usize) -> i64 {
+    if r.chance(1, 2) { a - n as i64 } else { a }
+}
+
+fn perm(r: &mut Rng, n: usize) -> Vec<i64> {
+    let mut p: Vec<i64> = (0..n as i64).collect();
+    r.shuffle(&mut p);
+    p
+}
+
+fn b2s(b: Option<i64>) -> String {
+    match b {
+        None => "d".into(),
+        Some(v) => v.to_string(),
+    }
+}
+
+fn idx_ot(r: &mut Rng) -> i32 {
+    if r.chance(1, 4) { onnx::INT32 } else { onnx::INT64 }
+}
+
+pub const OPS: &[&str] = &[
+    "Add", "Sub", "Mul", "Div", "Mod", "Pow", "Neg", "Abs", "Sign", "Relu", "Identity", "Min", "Max", "Sum", "Mean",
+    "Clip", "Equal", "Greater", "GreaterOrEqual", "Less", "LessOrEqual", "And", "Or", "Xor", "Not", "Where", "Cast",
+    "Shape", "Size", "Reshape", "Squeeze", "Unsqueeze", "Flatten", "Transpose", "Expand", "Tile", "Concat", "Split",
+    "Slice", "Gather", "GatherElements", "GatherND", "ScatterElements", "ScatterND", "Pad", "ReduceSum", "ReduceProd",
+    "ReduceMin", "ReduceMax", "ReduceSumSquare", "ReduceL1", "ReduceMean", "ArgMax", "ArgMin", "CumSum", "TopK",
+    "Trilu", "Range", "OneHot", "NonZero", "EyeLike", "ConstantOfShape", "DepthToSpace",
+];
+
+fn gen_case(op: &str, r: &mut Rng) -> Case {
+    let c = Case::new(op);
+    let mut c = match op {
+        "Add" | "Sub" | "Mul" => {
+            let dt = num_dt(r);
+            let out = dims(r, 0, 4, 4, true);
+            let (sa, sb) = (operand_shape(r, &out), operand_shape(r, &out));
+            c.input(tensor(r, &sa, dt, -9, 9)).input(tensor(r, &sb, dt, -9, 9)).tag(dt.name().into())
+        }
+        "Div" | "Mod" => {
+            let dt = *r.pick(&[Dt::F32, Dt::F32, Dt::I32, Dt::I32, Dt::I32, Dt::I8, Dt::U8]);
+            let out = dims(r, 0, 4, 4, true);
+            let (sa, sb) = (operand_shape(r, &out), operand_shape(r, &out));
+            let (a, mut b) = if dt == Dt::F32 && op == "Div" {
+                let mut a = tensor(r, &sa, dt, -6, 6);
+                a.data.iter_mut().for_each(|v| *v *= 2);
+                (a, tensor(r, &sb, dt, -2, 2))
+            } else {
+                (tensor(r, &sa, dt, -20, 20), tensor(r, &sb, dt, -5, 5))
+            };
+            // zero divisors are undefined: mostly avoided
+            let keep_zero = r.chance(1, 15);
+            if !keep_zero {
+                b.data.iter_mut().for_each(|v| {
+                    if *v == 0 {
+                        *v = 1
+                    }
+                });
+            }
+            let c = c.input(a).input(b);
+            if op == "Mod" {
+                let fmod = if dt == Dt::F32 { Some(1) } else { opt_range(r, 0, 1) };
+                c.int("fmod", fmod).tag(format!("{},fmod={}", dt.name(), b2s(fmod)))
+            } else {
+                c.tag(dt.name().into())
+            }
+        }
+        "Pow" => {
+            let dt = *r.pick(&[Dt::F32, Dt::F32, Dt::I32]);
+            let edt = if r.chance(1, 5) { *r.pick(&[Dt::F32, Dt::I32]) } else { dt };
+            let out = dims(r, 0, 4, 4, true);
+            let (sa, sb) = (operand_shape(r, &out), operand_shape(r, &out));
+            c.input(tensor(r, &sa, dt, -3, 3)).input(tensor(r, &sb, edt, 0, 4)).tag(format!("{}^{}", dt.name(), edt.name()))
+        }
+        "Neg" | "Abs" | "Sign" | "Relu" | "Identity" => {
+            let dt = any_dt(r);
+            let s = dims(r, 0, 4, 4, true);
+            c.input(tensor(r, &s, dt, -9, 9)).tag(dt.name().into())
+        }
+        "Min" | "Max" | "Sum" | "Mean" => {
+            let dt = *r.pick(&[Dt::F32, Dt::F32, Dt::I32, Dt::I32, Dt::U8]);
+            let out = dims(r, 0, 4, 4, true);
+            let n = r.range(1, 3) as usize;
+            let mut c = c;
+            for _ in 0..n {
+                let s = operand_shape(r, &out);
+                let mut t = tensor(r, &s, dt, -6, 6);
+                if op == "Mean" {
+                    // make sums divisible by n most of the time
+                    t.data.iter_mut().for_each(|v| *v *= n as i64);
+                    if dt == Dt::U8 {
+                        t.data.iter_mut().for_each(|v| *v = (*v).clamp(0, 255));
+                    }
+                }
+                c = c.input(t);
+            }
+            c.tag(format!("{},n={}", dt.name(), n))
+        }
+        "Clip" => {
+            let dt = *r.pick(&[Dt::F32, Dt::F32, Dt::I32, Dt::I32, Dt::I8, Dt::U8]);
+            let s = dims(r, 0, 4, 4, true);
+            let lo = r.range(-6, 4);
+            let hi = if r.chance(1, 8) { lo - r.range(1, 3) } else { lo + r.range(0, 6) };
+            let (lo, hi) = if dt == Dt::U8 { (lo.max(0), hi.max(0)) } else { (lo, hi) };
+            let has_lo = r.chance(3, 4);
+            let has_hi = r.chance(3, 4);
+            c.input(tensor(r, &s, dt, -9, 9))
+                .opt_input(has_lo.then(|| T::scalar(dt, lo)))
+                .opt_input(has_hi.then(|| T::scalar(dt, hi)))
+                .tag(format!("{},min={},max={}{}", dt.name(), has_lo, has_hi, if has_lo && has_hi && lo > hi { ",min>max" } else { "" }))
+        }
+        "Equal" | "Greater" | "GreaterOrEqual" | "Less" | "LessOrEqual" => {
+            let dt = num_dt(r);
+            let out = dims(r, 0, 4, 4, true);
+            let (sa, sb) = (operand_shape(r, &out), operand_shape(r, &out));
+            c.input(tensor(r, &sa, dt, -3, 3)).input(tensor(r, &sb, dt, -3, 3)).tag(dt.name().into())
+        }
+        "And" | "Or" | "Xor" => {
+            let out = dims(r, 0, 4, 4, true);
+            let (sa, sb) = (operand_shape(r, &out), operand_shape(r, &out));
+            c.input(bools(r, &sa)).input(bools(r, &sb)).tag("bool".into())
+        }
+        "Not" => {
+            let s = dims(r, 0, 4, 4, true);
+            c.input(bools(r, &s)).tag("bool".into())
+        }
+        "Where" => {
+            let dt = any_dt(r);
+            let out = dims(r, 0, 4, 4, true);
+            let (sc, sa, sb) = (operand_shape(r, &out), operand_shape(r, &out), operand_shape(r, &out));
+            c.input(bools(r, &sc)).input(tensor(r, &sa, dt, -9, 9)).input(tensor(r, &sb, dt, -9, 9)).tag(dt.name().into())
+        }
+        "Cast" => {
+            let dt = any_dt(r);
+            let to = *r.pick(&[onnx::FLOAT, onnx::UINT8, onnx::INT8, onnx::INT32, onnx::INT64, onnx::BOOL, onnx::DOUBLE, 10]);
+            let s = dims(r, 0, 4, 4, true);
+            let (lo, hi) = if r.chance(1, 6) { (-200, 300) } else if r.chance(1, 2) { (0, 100) } else { (-100, 100) };
+            c.input(tensor(r, &s, dt, lo, hi)).int("to", Some(to as i64)).tag(format!("{}->{}", dt.name(), to))
+        }
+        "Shape" => {
+            let dt = any_dt(r);
+            let s = dims(r, 0, 4, 4, true);
+            let start = if r.chance(1, 2) { Some(r.range(-6, 6)) } else { None };
+            let end = if r.chance(1, 2) { Some(r.range(-6, 6)) } else { None };
+            c.input(tensor(r, &s, dt, -9, 9)).int("start", start).int("end", end)
+                .tag(format!("start={},end={}", start.is_some(), end.is_some()))
+        }
+        "Size" => {
+            let dt = any_dt(r);
+            let s = dims(r, 0, 4, 4, true);
+            c.input(tensor(r, &s, dt, -9, 9)).tag(dt.name().into())
+        }
+        "Reshape" => {
+            let dt = any_dt(r);
+            let s = dims(r, 0, 4, 4, true);
+            let n = numel(&s);
+            // target with the same number of elements
+            let mut tgt: Vec<i64> = match r.below(5) {
+                0 => vec![n as i64],
+                1 => s.iter().rev().map(|d| *d as i64).collect(),
+                2 => {
+                    // merge two adjacent dims
+                    let mut v: Vec<i64> = s.iter().map(|d| *d as i64).collect();
+                    if v.len() >= 2 {
+                        let i = r.below(v.len() - 1);
+                        let m = v[i] * v[i + 1];
+                        v[i] = m;
+                        v.remove(i + 1);
+                    }
+                    v
+                }
+                3 => {
+                    // split one dim into factors
+                    let mut v: Vec<i64> = s.iter().map(|d| *d as i64).collect();
+                    if !v.is_empty() {
+                        let i = r.below(v.len());
+                        if v[i] == 4 {
+                            v[i] = 2;
+                            v.insert(i, 2);
+                        } else {
+                            v.insert(i, 1);
+                        }
+                    }
+                    v
+                }
+                _ => s.iter().map(|d| *d as i64).collect(),
+            };
+            if r.chance(1, 3) {
+                let i = r.below(tgt.len() + 1);
+                tgt.insert(i, 1);
+            }
+            let allowzero = if r.chance(1, 4) { Some(r.range(0, 1)) } else { None };
+            let az = allowzero == Some(1);
+            let mut kind = "plain";
+            if !tgt.is_empty() && r.chance(1, 3) {
+                let i = r.below(tgt.len());
+                tgt[i] = -1;
+                kind = "neg1";
+            }
+            if !az && r.chance(1, 3) {
+                // 0 = copy the input dim at that position
+                for i in 0..tgt.len().min(s.len()) {
+                    if tgt[i] == s[i] as i64 && r.chance(1, 2) {
+                        tgt[i] = 0;
+                        kind = if kind == "neg1" { "neg1+zero" } else { "zero" };
+                    }
+                }
+            }
+            if r.chance(1, 25) && !tgt.is_empty() {
+                let i = r.below(tgt.len());
+                tgt[i] += 1; // element count mismatch: undefined
+            }
+            c.input(tensor(r, &s, dt, -9, 9)).input(T::i64s(tgt)).int("allowzero", allowzero)
+                .tag(format!("{},allowzero={}", kind, b2s(allowzero)))
+        }
+        "Squeeze" => {
+            let dt = any_dt(r);
+            let mut s = dims(r, 0, 4, 3, true);
+            for d in s.iter_mut() {
+                if r.chance(1, 2) {
+                    *d = 1;
+                }
+            }
+            let ones: Vec<usize> = (0..s.len()).filter(|i| s[*i] == 1).collect();
+            let axes = if r.chance(1, 4) {
+                None
+            } else {
+                let mut a: Vec<i64> = Vec::new();
+                for i in &ones {
+                    if r.chance(2, 3) {
+                        a.push(maybe_neg(r, *i as i64, s.len()));
+                    }
+                }
+                r.shuffle(&mut a);
+                if r.chance(1, 20) && !s.is_empty() {
+                    a.push(r.below(s.len()) as i64); // possibly not 1 / duplicate: undefined
+                }
+                Some(T::i64s(a))
+            };
+            let t = format!("axes={}", axes.is_some());
+            c.input(tensor(r, &s, dt, -9, 9)).opt_input(axes).tag(t)
+        }
+        "Unsqueeze" => {
+            let dt = any_dt(r);
+            let s = dims(r, 0, 3, 3, true);
+            let k = r.range(0, 2) as usize;
+            let ro = s.len() + k;
+            let mut pos: Vec<i64> = (0..ro as i64).collect();
+            r.shuffle(&mut pos);
+            let axes: Vec<i64> = pos[..k].iter().map(|a| maybe_neg(r, *a, ro)).collect();
+            c.input(tensor(r, &s, dt, -9, 9)).input(T::i64s(axes)).tag(format!("n={k}"))
+        }
+        "Flatten" => {
+            let dt = any_dt(r);
+            let s = dims(r, 0, 4, 4, true);
+            let axis = if r.chance(1, 4) { None } else { Some(r.range(-(s.len() as i64), s.len() as i64)) };
+            c.input(tensor(r, &s, dt, -9, 9)).int("axis", axis).tag(format!("axis={}", match axis {
+                None => "d",
+                Some(a) if a < 0 => "neg",
+                _ => "pos",
+            }))
+        }
+        "Transpose" => {
+            let dt = any_dt(r);
+            let s = dims(r, 0, 4, 4, true);
+            let p = if r.chance(1, 4) { None } else { Some(AV::Ints(perm(r, s.len()))) };
+            let t = format!("perm={},rank={}", p.is_some(), s.len());
+            c.input(tensor(r, &s, dt, -9, 9)).attr("perm", p).tag(t)
+        }
+        "Expand" => {
+            let dt = any_dt(r);
+            let out = dims(r, 0, 4, 4, true);
+            let sa = operand_shape(r, &out);
+            let sb: Vec<i64> = operand_shape(r, &out).iter().map(|d| *d as i64).collect();
+            c.input(tensor(r, &sa, dt, -9, 9)).input(T::i64s(sb)).tag(dt.name().into())
+        }
+        "Tile" => {
+            let dt = any_dt(r);
+            let s = dims(r, 0, 4, 3, true);
+            let reps: Vec<i64> = s.iter().map(|_| if r.chance(1, 10) { 0 } else { r.range(1, 3) }).collect();
+            c.input(tensor(r, &s, dt, -9, 9)).input(T::i64s(reps)).tag(dt.name().into())
+        }
+        "Concat" => {
+            let dt = any_dt(r);
+            let s = dims(r, 1, 4, 3, true);
+            let n = r.range(1, 3) as usize;
+            let ax = r.below(s.len());
+            let mut c = c;
+            for _ in 0..n {
+                let mut si = s.clone();
+                si[ax] = r.range(0, 3) as usize;
+                c = c.input(tensor(r, &si, dt, -9, 9));
+            }
+            let axis = maybe_neg(r, ax as i64, s.len());
+            c.int("axis", Some(axis)).tag(format!("n={n},axis={}", if axis < 0 { "neg" } else { "pos" }))
+        }
+        "Split" => {
+            let dt = any_dt(r);
+            let mut s = dims(r, 1, 4, 3, true);
+            let ax = r.below(s.len());
+            let axis = if ax == 0 && r.chance(1, 3) { None } else { Some(maybe_neg(r, ax as i64, s.len())) };
+            if r.chance(1, 2) {
+                let n = r.range(1, 3) as usize;
+                let sizes: Vec<i64> = (0..n).map(|_| r.range(0, 3)).collect();
+                s[ax] = sizes.iter().sum::<i64>() as usize;
+                c.input(tensor(r, &s, dt, -9, 9)).input(T::i64s(sizes)).int("axis", axis).int("num_outputs", None)
+                    .nout(n).tag("split=sizes".into())
+            } else {
+                let n = r.range(1, 4) as usize;
+                s[ax] = r.range(0, 8) as usize;
+                let even = s[ax] % n == 0;
+                c.input(tensor(r, &s, dt, -9, 9)).opt_input(None).int("axis", axis).int("num_outputs", Some(n as i64))
+                    .nout(n).tag(format!("split=num_outputs,even={even}"))
+            }
+        }
+        "Slice" => {
+            let dt = any_dt(r);
+            let s = dims(r, 1, 4, 4, true);
+            let rank = s.len();
+            let k = r.range(0, rank as i64) as usize;
+            let p = perm(r, rank);
+            let axes_v: Vec<i64> = p[..k].to_vec();
+            let mut starts = vec![];
+            let mut ends = vec![];
+            let mut steps = vec![];
+            let mut special = false;
+            for a in &axes_v {
+                let d = s[*a as usize] as i64;
+                let mut pick = |r: &mut Rng| -> i64 {
+                    match r.below(10) {
+                        0 => {
+                            special = true;
+                            i32::MAX as i64
+                        }
+                        1 => {
+                            special = true;
+                            i32::MIN as i64
+                        }
+                        2 => {
+                            special = true;
+                            -(1 << 20)
+                        }
+                        _ => r.range(-d - 2, d + 2),
+                    }
+                };
+                starts.push(pick(r));
+                ends.push(pick(r));
+                steps.push(*r.pick(&[1, 1, 1, 2, 3, -1, -1, -2, -3, 5, -5]));
+            }
+            let has_steps = r.chance(2, 3);
+            let has_axes = has_steps || k < rank || r.chance(1, 2);
+            // without an axes input the axes are 0..k-1
+            let axes_in = if has_axes {
+                Some(T::i64s(axes_v.iter().map(|a| maybe_neg(r, *a, rank)).collect()).ot(idx_ot(r)))
+            } else {
+                None
+            };
+            let (starts, ends) = if has_axes {
+                (starts, ends)
+            } else {
+                // positional: entry i applies to axis i; recompute nothing, values are just reinterpreted
+                (starts, ends)
+            };
+            let neg = has_steps && steps.iter().any(|s| *s < 0);
+            c.input(tensor(r, &s, dt, -9, 9)).input(T::i64s(starts)).input(T::i64s(ends)).opt_input(axes_in)
+                .opt_input(has_steps.then(|| T::i64s(steps)))
+                .tag(format!("axes={has_axes},steps={},extreme={special}", if !has_steps { "d" } else if neg { "neg" } else { "pos" }))
+        }
+        "Gather" => {
+            let dt = any_dt(r);
+            let s = dims(r, 1, 4, 4, false);
+            let ax = r.below(s.len());
+            let is = dims(r, 0, 2, 3, true);
+            let d = s[ax] as i64;
+            let mut ind = tensor(r, &is, Dt::I32, -d, d - 1).ot(idx_ot(r));
+            if r.chance(1, 25) && !ind.data.is_empty() {
+                ind.data[0] = d + 1; // out of range: undefined
+            }
+            let axis = if ax == 0 && r.chance(1, 3) { None } else { Some(maybe_neg(r, ax as i64, s.len())) };
+            c.input(tensor(r, &s, dt, -9, 9)).input(ind).int("axis", axis).tag(format!("{},irank={}", dt.name(), is.len()))
+        }
+        "GatherElements" => {
+            let dt = any_dt(r);
+            let s = dims(r, 1, 4, 4, false);
+            let ax = r.below(s.len());
+            let mut is: Vec<usize> = s
+                .iter()
+                .map(|d| {
+                    let lo = if r.chance(1, 12) { 0 } else { 1 };
+                    r.range(lo, *d as i64) as usize
+                })
+                .collect();
+            is[ax] = r.range(0, 4) as usize;
+            let d = s[ax] as i64;
+            let ind = tensor(r, &is, Dt::I32, -d, d - 1).ot(idx_ot(r));
+            let axis = if ax == 0 && r.chance(1, 3) { None } else { Some(maybe_neg(r, ax as i64, s.len())) };
+            c.input(tensor(r, &s, dt, -9, 9)).input(ind).int("axis", axis).tag(dt.name().into())
+        }
+        "GatherND" => {
+            let dt = any_dt(r);
+            let s = dims(r, 1, 4, 3, false);
+            let rank = s.len();
+            let b = if rank >= 2 && r.chance(1, 3) { 1 } else { 0 };
+            let k = r.range(1, (rank - b) as i64) as usize;
+            let mut is: Vec<usize> = s[..b].to_vec();
+            is.extend(dims(r, 0, 2, 3, true));
+            is.push(k);
+            let n = numel(&is);
+            let neg = r.chance(1, 4);
+            let data: Vec<i64> = (0..n)
+                .map(|i| {
+                    let d = s[b + i % k] as i64;
+                    if neg { r.range(-d, d - 1) } else { r.range(0, d - 1) }
+                })
+                .collect();
+            let ind = T::new(is, Dt::I32, data).ot(onnx::INT64);
+            let bd = if b == 0 && r.chance(1, 2) { None } else { Some(b as i64) };
+            c.input(tensor(r, &s, dt, -9, 9)).input(ind).int("batch_dims", bd).tag(format!("b={b},neg={neg}"))
+        }
+        "ScatterElements" => {
+            let dt = *r.pick(&[Dt::F32, Dt::F32, Dt::I32, Dt::I32, Dt::U8]);
+            let s = dims(r, 1, 3, 4, false);
+            let rank = s.len();
+            let ax = r.below(rank);
+            let red = *r.pick(&["", "none", "add", "mul", "min", "max"]);
+            let d = s[ax];
+            let mut is: Vec<usize> = s
+                .iter()
+                .map(|d| {
+                    let lo = if r.chance(1, 12) { 0 } else { 1 };
+                    r.range(lo, *d as i64) as usize
+                })
+                .collect();
+            let unique = red.is_empty() || red == "none";
+            is[ax] = if unique { r.range(0, d as i64) as usize } else { r.range(0, 4) as usize };
+            let n = numel(&is);
+            let mut ind = vec![0i64; n];
+            if unique {
+                // per lane along `ax`: distinct targets
+                let outer: usize = is[..ax].iter().product();
+                let inner: usize = is[ax + 1..].iter().product();
+                for o in 0..outer {
+                    for i in 0..inner {
+                        let p = perm(r, d);
+                        for j in 0..is[ax] {
+                            ind[(o * is[ax] + j) * inner + i] = p[j];
+                        }
+                    }
+                }
+                if r.chance(1, 25) && n >= 2 && is[ax] >= 2 {
+                    let inner: usize = is[ax + 1..].iter().product();
+                    ind[inner] = ind[0]; // duplicate: undefined
+                }
+            } else {
+                for v in ind.iter_mut() {
+                    *v = r.range(0, d as i64 - 1);
+                }
+            }
+            let neg = r.chance(1, 3);
+            if neg {
+                for v in ind.iter_mut() {
+                    if r.chance(1, 2) {
+                        *v -= d as i64;
+                    }
+                }
+            }
+            let (lo, hi) = if red == "mul" { (-2, 2) } else { (-9, 9) };
+            let upd = tensor(r, &is, dt, lo, hi);
+            let axis = if ax == 0 && r.chance(1, 3) { None } else { Some(maybe_neg(r, ax as i64, rank)) };
+            c.input(tensor(r, &s, dt, -9, 9)).input(T::new(is, Dt::I32, ind).ot(idx_ot(r))).input(upd).int("axis", axis)
+                .attr("reduction", (!red.is_empty()).then(|| AV::Str(red.into())))
+                .tag(format!("{},red={},neg={neg}", dt.name(), if red.is_empty() { "d" } else { red }))
+        }
+        "ScatterND" => {
+            let dt = *r.pick(&[Dt::F32, Dt::F32, Dt::I32, Dt::I32, Dt::U8]);
+            let s = dims(r, 1, 3, 3, false);
+            let rank = s.len();
+            let k = r.range(1, rank as i64) as usize;
+            let red = *r.pick(&["", "none", "add", "mul", "min", "max"]);
+            let unique = red.is_empty() || red == "none";
+            let total: usize = s[..k].iter().product();
+            let mut lead = dims(r, 0, 2, 3, true);
+            if unique {
+                while numel(&lead) > total {
+                    lead.pop();
+                }
+            }
+            let m = numel(&lead);
+            let order = perm(r, total);
+            let mut ind = vec![];
+            for j in 0..m {
+                let lin = if unique { order[j] as usize } else { r.below(total) };
+                // unravel lin over s[..k]
+                let mut rem = lin;
+                let mut tup = vec![0i64; k];
+                for d in (0..k).rev() {
+                    tup[d] = (rem % s[d]) as i64;
+                    rem /= s[d];
+                }
+                ind.extend(tup);
+            }
+            let mut is = lead.clone();
+            is.push(k);
+            let mut us = lead;
+            us.extend_from_slice(&s[k..]);
+            let (lo, hi) = if red == "mul" { (-2, 2) } else { (-9, 9) };
+            let upd = tensor(r, &us, dt, lo, hi);
+            c.input(tensor(r, &s, dt, -9, 9)).input(T::new(is, Dt::I32, ind).ot(onnx::INT64)).input(upd)
+                .attr("reduction", (!red.is_empty()).then(|| AV::Str(red.into())))
+                .tag(format!("{},red={}", dt.name(), if red.is_empty() { "d" } else { red }))
+        }
+        "Pad" => {
+            let dt = *r.pick(&[Dt::F32, Dt::F32, Dt::I32, Dt::I32, Dt::U8, Dt::I8]);
+            let mode = *r.pick(&["", "constant", "reflect", "edge", "wrap"]);
+            let m = if mode.is_empty() { "constant" } else { mode };
+            let s = dims(r, 1, 4, 4, m == "constant");
+            let rank = s.len();
+            let has_axes = r.chance(1, 3);
+            let axes: Vec<i64> = if has_axes {
+                let p = perm(r, rank);
+                p[..r.range(0, rank as i64) as usize].to_vec()
+            } else {
+                (0..rank as i64).collect()
+            };
+            let n = axes.len();
+            let mut pads = vec![0i64; 2 * n];
+            let negp = m == "constant" && r.chance(1, 5);
+            for (i, a) in axes.iter().enumerate() {
+                let d = s[*a as usize] as i64;
+                for e in 0..2 {
+                    let hi = match m {
+                        "reflect" => (d - 1).min(3),
+                        _ => 3,
+                    };
+                    pads[e * n + i] = if r.chance(1, 3) { 0 } else { r.range(0, hi.max(0)) };
+                    if negp && r.chance(1, 3) {
+                        pads[e * n + i] = -r.range(0, d.min(2));
+                    }
+                }
+            }
+            let cv = if m == "constant" && r.chance(1, 2) { Some(T::scalar(dt, r.range(if dt == Dt::U8 { 0 } else { -5 }, 5))) } else { None };
+            let axes_t = has_axes.then(|| T::i64s(axes.iter().map(|a| maybe_neg(r, *a, rank)).collect()).ot(idx_ot(r)));
+            let t = format!("{},mode={},axes={has_axes},neg={negp},cv={}", dt.name(), if mode.is_empty() { "d" } else { mode }, cv.is_some());
+            c.input(tensor(r, &s, dt, -9, 9)).input(T::i64s(pads)).opt_input(cv).opt_input(axes_t)
+                .attr("mode", (!mode.is_empty()).then(|| AV::Str(mode.into()))).tag(t)
+        }
+        "ReduceSum" | "ReduceProd" | "ReduceMin" | "ReduceMax" | "ReduceSumSquare" | "ReduceL1" | "ReduceMean" => {
+            let dt = *r.pick(&[Dt::F32, Dt::F32, Dt::I32, Dt::I32, Dt::U8]);
+            let s = dims(r, 0, 4, if op == "ReduceProd" { 3 } else { 4 }, true);
+            let rank = s.len();
+            let axes = match r.below(4) {
+                0 => None,
+                1 => Some(vec![]),
+                _ => {
+                    let p = perm(r, rank);
+                    Some(p[..r.range(0, rank as i64) as usize].iter().map(|a| maybe_neg(r, *a, rank)).collect())
+                }
+            };
+            let keep = opt_range(r, 0, 1);
+            let noop = if r.chance(1, 3) { Some(r.range(0, 1)) } else { None };
+            let mut x = match op {
+                "ReduceProd" => tensor(r, &s, dt, -2, 2),
+                _ => tensor(r, &s, dt, -9, 9),
+            };
+            if op == "ReduceMean" && r.chance(3, 4) {
+                // make every group sum divisible by the group size
+                let g = match &axes {
+                    None => numel(&s),
+                    Some(a) if a.is_empty() && noop != Some(1) => numel(&s),
+                    Some(a) => a.iter().map(|a| s[(if *a < 0 { *a + rank as i64 } else { *a }) as usize]).product(),
+                };
+                x.data.iter_mut().for_each(|v| *v = (*v * g as i64).clamp(dt.lo(), dt.hi()));
+            }
+            let empty = axes.as_ref().map(|a| a.is_empty());
+            c.input(x).opt_input(axes.map(T::i64s)).int("keepdims", keep).int("noop_with_empty_axes", noop)
+                .tag(format!("{},axes={},keep={},noop={}", dt.name(), match empty {
+                    None => "absent",
+                    Some(true) => "empty",
+                    Some(false) => "given",
+                }, b2s(keep), b2s(noop)))
+        }
+        "ArgMax" | "ArgMin" => {
+            let dt = *r.pick(&[Dt::F32, Dt::F32, Dt::I32, Dt::I32, Dt::U8, Dt::I8]);
+            let s = dims(r, 1, 4, 4, true);
+            let ax = r.below(s.len());
+            let axis = if ax == 0 && r.chance(1, 3) { None } else { Some(maybe_neg(r, ax as i64, s.len())) };
+            let keep = opt_range(r, 0, 1);
+            let last = if r.chance(1, 2) { Some(r.range(0, 1)) } else { None };
+            c.input(tensor(r, &s, dt, -3, 3)).int("axis", axis).int("keepdims", keep).int("select_last_index", last)
+                .tag(format!("{},keep={},last={}", dt.name(), b2s(keep), b2s(last)))
+        }
+        "CumSum" => {
+            let dt = *r.pick(&[Dt::F32, Dt::F32, Dt::I32, Dt::I32]);
+            let s = dims(r, 1, 4, 4, true);
+            let ax0 = r.below(s.len()) as i64;
+            let ax = maybe_neg(r, ax0, s.len());
+            let excl = opt_range(r, 0, 1);
+            let rev = opt_range(r, 0, 1);
+            let axt = if r.chance(1, 2) { T::scalar(Dt::I32, ax).ot(idx_ot(r)) } else { T::new(vec![1], Dt::I32, vec![ax]).ot(idx_ot(r)) };
+            c.input(tensor(r, &s, dt, -9, 9)).input(axt).int("exclusive", excl).int("reverse", rev)
+                .tag(format!("{},excl={},rev={}", dt.name(), b2s(excl), b2s(rev)))
+        }
+        "TopK" => {
+            let dt = *r.pick(&[Dt::F32, Dt::F32, Dt::I32, Dt::I32]);
+            let s = dims(r, 1, 4, 4, true);
+            let ax = r.below(s.len());
+            let axis = if ax == s.len() - 1 && r.chance(1, 3) { None } else { Some(maybe_neg(r, ax as i64, s.len())) };
+            let k = r.range(0, s[ax] as i64);
+            let largest = opt_range(r, 0, 1);
+            let sorted = if r.chance(1, 2) { Some(1) } else { None };
+            c.input(tensor(r, &s, dt, -3, 3)).input(T::i64s(vec![k])).int("axis", axis).int("largest", largest).int("sorted", sorted)
+                .nout(2).tag(format!("{},largest={}", dt.name(), b2s(largest)))
+        }
+        "Trilu" => {
+            let dt = any_dt(r);
+            let s = dims(r, 2, 4, 4, true);
+            let k = if r.chance(1, 3) { None } else { Some(T::scalar(Dt::I32, r.range(-4, 4)).ot(onnx::INT64)) };
+            let upper = opt_range(r, 0, 1);
+            let t = format!("k={},upper={}", k.is_some(), b2s(upper));
+            c.input(tensor(r, &s, dt, -9, 9)).opt_input(k).int("upper", upper).tag(t)
+        }
+        "Range" => {
+            let dt = *r.pick(&[Dt::F32, Dt::I32, Dt::I32]);
+            let start = r.range(-5, 5);
+            let delta = *r.pick(&[1, 1, 2, 3, -1, -2, -3]);
+            let limit = start + r.range(-8, 8);
+            let ot = if dt == Dt::I32 && r.chance(1, 2) { onnx::INT64 } else { dt.onnx() };
+            c.input(T::scalar(dt, start).ot(ot)).input(T::scalar(dt, limit).ot(ot)).input(T::scalar(dt, delta).ot(ot))
+                .tag(format!("{},delta={}", dt.name(), if delta < 0 { "neg" } else { "pos" }))
+        }
+        "OneHot" => {
+            let s = dims(r, 0, 3, 3, true);
+            let depth = r.range(1, 4);
+            let vdt = any_dt(r);
+            let axis = if r.chance(1, 3) { None } else { Some(r.range(-(s.len() as i64) - 1, s.len() as i64)) };
+            let ind = tensor(r, &s, Dt::I32, -depth - 1, depth + 1).ot(idx_ot(r));
+            let depth_t = if r.chance(1, 2) { T::scalar(Dt::I32, depth).ot(onnx::INT64) } else { T::new(vec![1], Dt::I32, vec![depth]).ot(onnx::INT64) };
+            let off = r.range(0, 3);
+            let on = r.range(4, 9);
+            c.input(ind).input(depth_t).input(T::new(vec![2], vdt, vec![off, on])).int("axis", axis)
+                .tag(format!("{},axis={}", vdt.name(), match axis {
+                    None => "d",
+                    Some(a) if a < 0 => "neg",
+                    _ => "pos",
+                }))
+        }
+        "NonZero" => {
+            let dt = any_dt(r);
+            let s = dims(r, 1, 4, 4, true);
+            c.input(tensor(r, &s, dt, -1, 1)).tag(dt.name().into())
+        }
+        "EyeLike" => {
+            let dt = any_dt(r);
+            let s = dims(r, 2, 2, 4, true);
+            let k = opt_range(r, -3, 3);
+            let to = if r.chance(1, 2) { Some(*r.pick(&[onnx::FLOAT, onnx::INT32, onnx::INT64, onnx::UINT8, onnx::INT8, onnx::DOUBLE]) as i64) } else { None };
+            c.input(tensor(r, &s, dt, -9, 9)).int("dtype", to).int("k", k).tag(format!("{}->{}", dt.name(), b2s(to)))
+        }
+        "ConstantOfShape" => {
+            let s = dims(r, 0, 4, 3, true);
+            let v = if r.chance(1, 4) {
+                None
+            } else {
+                let dt = any_dt(r);
+                let ot = if dt == Dt::I32 { *r.pick(&[onnx::INT32, onnx::INT64, onnx::BOOL]) } else { dt.onnx() };
+                let val = if ot == onnx::BOOL { r.range(0, 1) } else { r.range(if dt == Dt::U8 { 0 } else { -9 }, 9) };
+                Some(T::new(vec![1], dt, vec![val]).ot(ot))
+            };
+            let t = match &v {
+                None => "value=d".to_string(),
+                Some(t) => format!("value={}", t.ot),
+            };
+            c.input(T::i64s(s.iter().map(|d| *d as i64).collect())).attr("value", v.map(AV::Tens)).tag(t)
+        }
+        "DepthToSpace" => {
+            let dt = any_dt(r);
+            let b = *r.pick(&[1usize, 2, 2, 2, 3]);
+            let c2 = r.range(1, if b == 3 { 1 } else { 3 }) as usize;
+            let s = vec![r.range(1, 2) as usize, c2 * b * b, r.range(1, 3) as usize, r.range(1, 3) as usize];
+            let mode = *r.pick(&["", "DCR", "CRD"]);
+            c.input(tensor(r, &s, dt, -9, 9)).int("blocksize", Some(b as i64))
+                .attr("mode", (!mode.is_empty()).then(|| AV::Str(mode.into())))
+                .tag(format!("mode={},b={b}", if mode.is_empty() { "d" } else { mode }))
+        }
+        other => panic!("no generator for {other}"),
+    };
+    classify(&mut c);
+    if c.combo.is_empty() {
+        c.combo = c.tag.clone();
+    }
+    c.vshape = r.chance(1, 3);
+    // "parameter" inputs (everything but input 0) as initializers, sometimes
+    if r.chance(1, 4) {
+        for k in 1..c.ins.len() {
+            if c.ins[k].is_some() {
+                c.init[k] = true;
+            }
+        }
+    }
+    c
+}
+
+/// Coarse input/attribute class used in failure signatures (`tag`); the generator's fine
+/// description moves to `combo`. Purely descriptive: the spec never reads either.
+fn classify(c: &mut Case) {
+    let fine = c.tag.clone();
+    let t = |k: usize| c.ins.get(k).and_then(|x| x.as_ref());
+    let attr_int = |name: &str| -> Option<i64> {
+        c.attrs.iter().find(|(n, _)| n == name).and_then(|(_, v)| match v {
+            Some(AV::Int(i)) => Some(*i),
+            _ => None,
+        })
+    };
+    let coarse: Option<String> = match c.op.as_str() {
+        "Add" | "Sub" | "Mul" | "Div" | "Mod" | "Pow" | "Equal" | "Greater" | "GreaterOrEqual" | "Less" | "LessOrEqual"
+        | "And" | "Or" | "Xor" => {
+            let (a, b) = (t(0).unwrap(), t(1).unwrap());
+            let hi = (b.data.len() == 1 && b.shape.len() > a.shape.len()) || (a.data.len() == 1 && a.shape.len() > b.shape.len());
+            Some(format!("{},{}", a.dt.name(), if hi { "one_elem_operand_of_higher_rank" } else { "plain" }))
+        }
+        "Sign" => {
+            let a = t(0).unwrap();
+            Some(format!("{},{}", a.dt.name(), if a.data.contains(&0) { "has_zero" } else { "no_zero" }))
+        }
+        "Cast" => {
+            let a = t(0).unwrap();
+            if attr_int("to") == Some(onnx::BOOL as i64) {
+                Some(if a.data.iter().any(|v| *v != 0 && *v != 1) { "to_bool,values_not_0_1".into() } else { "to_bool,values_0_1".into() })
+            } else {
+                None
+            }
+        }
+        "Expand" => {
+            let (a, sh) = (t(0).unwrap(), t(1).unwrap());
+            Some(if sh.data.len() < a.shape.len() { "shape_shorter_than_input_rank".into() } else { "plain".into() })
+        }
+        "Slice" => {
+            let x = t(0).unwrap();
+            let (st, steps) = (t(1).unwrap(), t(4));
+            let rank = x.shape.len() as i64;
+            let mut below = false;
+            let mut neg = false;
+            if let Some(steps) = steps {
+                for i in 0..st.data.len().min(steps.data.len()) {
+                    let ax = match t(3) {
+                        Some(a) if i < a.data.len() => a.data[i],
+                        _ => i as i64,
+                    };
+                    let ax = if ax < 0 { ax + rank } else { ax };
+                    if ax < 0 || ax >= rank {
+                        continue;
+                    }
+                    let d = x.shape[ax as usize] as i64;
+                    if steps.data[i] < 0 {
+                        neg = true;
+                        if st.data[i] < -d {
+                            below = true;
+                        }
+                    }
+                }
+            }
+            Some(if below { "negative_step,start_below_minus_dim".into() } else if neg { "negative_step".into() } else { "positive_step".into() })
+        }
+        "ArgMax" | "ArgMin" => {
+            let x = t(0).unwrap();
+            let rank = x.shape.len() as i64;
+            let ax = attr_int("axis").unwrap_or(0);
+            let ax = (if ax < 0 { ax + rank } else { ax }) as usize;
+            let n = x.shape[ax];
+            let inner: usize = x.shape[ax + 1..].iter().product();
+            let outer: usize = x.shape[..ax].iter().product();
+            let mut ties = false;
+            for o in 0..outer {
+                for i in 0..inner {
+                    let lane: Vec<i64> = (0..n).map(|j| x.data[(o * n + j) * inner + i]).collect();
+                    if lane.is_empty() {
+                        continue;
+                    }
+                    let best = if c.op == "ArgMax" { *lane.iter().max().unwrap() } else { *lane.iter().min().unwrap() };
+                    if lane.iter().filter(|v| **v == best).count() > 1 {
+                        ties = true;
+                    }
+                }
+            }
+            let last = attr_int("select_last_index") == Some(1);
+            Some(format!("{},{}", if ties { "ties" } else { "no_ties" }, if last { "select_last" } else { "select_first" }))
+        }
+        "ScatterElements" => {
+            let (x, ind) = (t(0).unwrap(), t(1).unwrap());
+            let rank = x.shape.len() as i64;
+            let ax = attr_int("axis").unwrap_or(0);
+            let ax = (if ax < 0 { ax + rank } else { ax }) as usize;
+            let sub = (0..x.shape.len()).any(|d| d != ax && ind.shape[d] != x.shape[d]);
+            Some(if sub { "indices_smaller_than_data_off_axis".into() } else { "indices_match_data_off_axis".into() })
+        }
+        _ => None,
+    };
+    if let Some(co) = coarse {
+        c.combo = fine;
+        c.tag = co;
+    }
+}
+
+fn fnv(s: &str) -> u64 {
+    let mut h = 0xcbf29ce484222325u64;
+    for b in s.bytes() {
+        h ^= b as u64;
+        h = h.wrapping_mul(0x100000001b3);
+    }
+    h
+}
+
 pub fn main() {
-    eprintln!("vh-ops onnxref: not implemented yet");
-    std::process::exit(2);
+    // VH_LOUD=1 keeps the default panic hook (message + location on stderr) for debugging
+    if std::env::var_os("VH_LOUD").is_none() {
+        quiet_panics();
+    }
+    if std::env::args().any(|a| a == "--list") {
+        println!("{}", OPS.join(","));
+        return;
+    }
+    let out = arg("--out").unwrap_or_else(|| {
+        eprintln!("usage: vh-ops onnxref --out <trace> [--ops A,B] [--per N] [--only-case JSON] [--list]");
+        std::process::exit(2)
+    });
+    let mut trace = Trace::create(&out);
+    if let Some(cj) = arg("--only-case") {
+        let j: J = serde_json::from_str(&cj).expect("bad --only-case json");
+        let c = Case::from_json(&j);
+        trace.emit(c.json(1));
+        trace.flush();
+        let mut ret = run_case(&c);
+        ret["id"] = json!(1);
+        trace.emit(ret);
+        return;
+    }
+    let per = arg_usize("--per", 25);
+    let ops: Vec<String> = match arg("--ops") {
+        Some(s) if !s.is_empty() && s != "all" => s.split(',').map(|s| s.to_string()).collect(),
+        _ => OPS.iter().map(|s| s.to_string()).collect(),
+    };
+    let seed = seed_from_env();
+    // --first-id N: resume after the process died in case N-1 (cases are a function of (seed, op, j))
+    let first_id = arg_usize("--first-id", 1);
+    let mut id = 0usize;
+    for op in &ops {
+        for j in 0..per {
+            // every case has its own generator state: independent of --ops / --per
+            let mut r = Rng::new(seed ^ fnv(op).wrapping_add((j as u64).wrapping_mul(0x9E3779B97F4A7C15)));
+            let c = gen_case(op, &mut r);
+            id += 1;
+            if id < first_id {
+                continue;
+            }
+            trace.emit(c.json(id));
+            trace.flush();
+            let mut ret = run_case(&c);
+            ret["id"] = json!(id);
+            trace.emit(ret);
+        }
+    }
+    trace.flush();
 }
